@@ -51,9 +51,9 @@ func runC04(c C04Case) cli.Result {
 	return cli.Run(cli.Opt{Dir: sb.Root, Stdin: c.Prog.MainText(), Timeout: 30 * time.Second}, append(args, "regex", "generate", "-")...)
 }
 
-var evasionPool = []string{`[\x5c'\"\[]*(?:\$[a-z0-9_@?!#{(*-]*)?(?:\x5c)?`, `[\"\^]*`, `x?`, `(?:\$[a-z]*)?`, `\s*`, `[\x5c'\"]*`, `(?:''|\x5c)?`, `_*`, ``, `\x5c|\^`, `''|""|_`, `\x5c*|\^*`, `'*|_?`}
-var suffixPool = []string{`(?:\s|<|>).*`, `[\s,;]`, `\s`, `(?:;|,|\s+)`, `[<>].*`, `$`, `\b`, `(?:\s.*)?`, ``, `\s|<|>`, `;|,`}
-var noSpaceSuffixPool = []string{`(?:<|>).*`, `[,;]`, `[<>]`, `(?:[,;]\w*)`, `\d`, ``, `<|>`}
+var evasionPool = []string{`[\x5c'\"\[]*(?:\$[a-z0-9_@?!#{(*-]*)?(?:\x5c)?`, `(?:\x5c*)|(?:\^*)`, `(?:_)|(?:\^)?`, `[\"\^]*`, `x?`, `(?:\$[a-z]*)?`, `\s*`, `[\x5c'\"]*`, `(?:''|\x5c)?`, `_*`, ``, `\x5c|\^`, `''|""|_`, `\x5c*|\^*`, `'*|_?`}
+var suffixPool = []string{`(?:\s|<|>).*`, `(?:\s)|(?:<.*)`, `[\s,;]`, `\s`, `(?:;|,|\s+)`, `[<>].*`, `$`, `\b`, `(?:\s.*)?`, ``, `\s|<|>`, `;|,`}
+var noSpaceSuffixPool = []string{`(?:<|>).*`, `(?:<)|(?:>)`, `[,;]`, `[<>]`, `(?:[,;]\w*)`, `\d`, ``, `<|>`}
 
 func yamlScalar(t *rapid.T, v string) string {
 	if v == "" {
